@@ -191,7 +191,12 @@ class MacroProgram(ElementProgram):
 
         # Remember whitespace for item repetition
         if self._last is not None:
-            self._whitespace = "\n" + " " * len(self._last.rsplit('\n', 1)[-1])
+            # The indentation of the line the element starts on; when
+            # the line holds other text, pad with as many spaces.
+            indent = self._last.rsplit('\n', 1)[-1]
+            if indent.strip():
+                indent = " " * len(indent)
+            self._whitespace = "\n" + indent
 
         # Set element-local whitespace
         whitespace = self._whitespace
